@@ -5,9 +5,11 @@ package mc
 
 import (
 	"bytes"
+	"crypto/sha256"
 	"encoding/json"
 	"fmt"
 	"sort"
+	"strconv"
 	"sync"
 	"time"
 
@@ -70,6 +72,18 @@ func (a *Acct) Bech() string { return a.Addr.String() }
 func MkAcct(name string) *Acct {
 	initConfig()
 	p := secp256k1.GenPrivKeyFromSecret([]byte("verif/" + name))
+	// "L<nn>:<x>" names an address of nn bytes (module-derived / group-policy / interchain accounts have
+	// 32): nobody holds a key for it, it can only be named in messages
+	if len(name) > 4 && name[0] == 'L' && name[3] == ':' {
+		if n, err := strconv.Atoi(name[1:3]); err == nil && n > 0 {
+			h := sha256.Sum256([]byte("verif/" + name))
+			addr := make([]byte, n)
+			for i := range addr {
+				addr[i] = h[i%32] ^ byte(i/32)
+			}
+			return &Acct{Name: name, Priv: p, Addr: sdk.AccAddress(addr)}
+		}
+	}
 	return &Acct{Name: name, Priv: p, Addr: sdk.AccAddress(p.PubKey().Address())}
 }
 
